@@ -258,11 +258,11 @@ fn check_cross(ctx: &Ctx, c: &XCase, idx: usize) -> CaseResult {
     let dir = ctx.verif_dir.join("work");
     let _ = std::fs::create_dir_all(&dir);
     let path = dir.join(format!("c16-x-{}-{}.json", std::process::id(), idx));
-    std::fs::write(&path, serde_json::to_vec(c).unwrap_or_default()).map_err(|e| Fail::new("C16/harness", format!("{e}")))?;
-    let exe = std::env::current_exe().map_err(|e| Fail::new("C16/harness", format!("{e}")))?;
+    std::fs::write(&path, serde_json::to_vec(c).unwrap_or_default()).map_err(|e| Fail::new("C16/INFRA/io", format!("{e}")))?;
+    let exe = std::env::current_exe().map_err(|e| Fail::new("C16/INFRA/io", format!("{e}")))?;
     let mut outs = Vec::new();
     for _ in 0..2 {
-        let o = std::process::Command::new(&exe).arg("emit").arg(&path).output().map_err(|e| Fail::new("C16/harness", format!("spawn: {e}")))?;
+        let o = std::process::Command::new(&exe).arg("emit").arg(&path).output().map_err(|e| Fail::new("C16/INFRA/io", format!("spawn: {e}")))?;
         if !o.status.success() {
             let _ = std::fs::remove_file(&path);
             fail!("C16/harness", "emit process failed: {:?}", o.status);
